@@ -368,7 +368,7 @@ def render(m, layout=None):
 
 
 def is_expr(m):
-    return m[0] in ('lit', 'const', 'this', 'var', 'field', 'index', 'set', 'range', 'un', 'bin', 'q', 'call')
+    return m[0] in ('lit', 'const', 'this', 'var', 'field', 'index', 'set', 'range', 'un', 'bin', 'q', 'call', 'calln')
 
 
 def children(m):
@@ -391,6 +391,8 @@ def children(m):
         return (m[3], m[4])
     if k == 'call':
         return (m[2],)
+    if k == 'calln':
+        return tuple(m[2])
     if k == 'ev':
         return () if m[3] is None else (m[3],)
     if k == 'disj':
@@ -446,6 +448,8 @@ def map_expr(e, f):
         return f(('q', e[1], e[2], map_expr(e[3], f), map_expr(e[4], f)))
     if k == 'call':
         return f(('call', e[1], map_expr(e[2], f)))
+    if k == 'calln':
+        return f(('calln', e[1], tuple(map_expr(a, f) for a in e[2])))
     raise ValueError(e)
 
 
